@@ -46,8 +46,9 @@ def cell_spelling(col, row, d):
     return '%s%s%s%d' % (d[0], col, d[1], row)
 
 
-def write_xlsx(sheets, names=None):
-    """sheets: list of (title, {coord: value-or-formula}); returns path."""
+def write_xlsx(sheets, names=None, hidden=()):
+    """sheets: list of (title, {coord: value-or-formula}); hidden: titles of
+    sheets to hide; returns path."""
     import openpyxl
     from openpyxl.workbook.defined_name import DefinedName
     wb = openpyxl.Workbook()
@@ -56,6 +57,8 @@ def write_xlsx(sheets, names=None):
         ws = wb.create_sheet(title)
         for coord, v in cells.items():
             ws[coord] = v
+        if title in hidden:
+            ws.sheet_state = 'hidden'
     for name, target in (names or {}).items():
         if isinstance(name, tuple):
             # (sheet title, name): a name defined for that sheet only
